@@ -6,7 +6,8 @@ import RoaringModel.SpecCodec
 -/
 namespace Roaring
 
-/-- KERNEL FACT (BitmapStore library): the values listed by `to_array_store`'s loop for a well-formed bitset
+/-- Kernel fact (statement; **proved** as `bitmap_toArray` in `Lemmas/CodecKernel.lean` from the shared
+    BitmapStore library): the values listed by `to_array_store`'s loop for a well-formed bitset
     are as many as the cached cardinality, are 16-bit values, and re-assemble into exactly the stored words. -/
 def Kernel.bitmap_toArray : Prop := ∀ b : BStore, StoreWF (.bitmap b) →
   b.toArray.length = b.len ∧ (∀ x ∈ b.toArray, x < 65536) ∧ Spec.wordsOf 0 1024 b.toArray = b.bits
